@@ -43,3 +43,10 @@ claim("C08", "for-all-loop guard analysis, CFG dominance, field ownership, empti
 claim("C18", "map-iteration-order taint analysis over the call-graph closure, comparator analysis (SORT-IDX, total order), field coverage, CFG dominance",
       "Neither API listing order nor Go map order can reach the compared configuration value: all listed kinds are sorted copies, no map-ordered slice escapes unsorted from the closure of config.For/toConfig, comparators index what they sort, reconcilers compare before applying. Decided for every input at once. Not decided: last-writer-wins value questions beyond the structural MAP-LWW rule, order of error messages.",
       NOTE, "DESIGN.md section 5, C18")
+
+claim("C11", "sibling set agreement (assign vs Unassign), loop must-pass rules, numeric typestates (saturating accumulator, guarded decrement), field-map agreement",
+      "Bookkeeping symmetry per address on all paths (including a pool that no longer exists), zero-delete, refresh-after-mutation, saturation and non-negativity of the capacity counters, name-for-name status copy with write errors returned. Not decided: the /24 arithmetic arm of poolCount, equality with a rebuilt allocator as values.",
+      NOTE, "DESIGN.md section 5, C11")
+claim("C20", "must-hold lockset dataflow with caller-holds fixed point and LIFO defer modelling, who-may-call / method-value escape analysis, alias-of-guarded-storage check",
+      "Mutual exclusion premises decided on all paths: handlers only run under the Listener mutex, every guarded field is accessed under its lock, callbacks and channel sends run outside the fine-grained locks, no mutable guarded storage is handed out. Serial equivalence of results is a consequence, not checked on values; lock instances are not distinguished (no pointer analysis).",
+      NOTE, "DESIGN.md section 5, C20")
